@@ -6,5 +6,5 @@ cd "$(dirname "$0")"
 export CARGO_NET_OFFLINE=true
 (cd engines/qfacts && cargo +nightly build --release --offline -q)
 (cd engines/declscan && cargo build --release --offline -q)
-python3 -m qcheck.facts f64-all dec-all >/dev/null
+python3 -m qcheck.facts f64-all dec-all f64-serde none >/dev/null
 echo "setup ok"
